@@ -20,8 +20,8 @@ One == BNat(1)
 Two == BNat(2)
 
 Rec == ndJsonDeserialize(IOEnv.TRACE)
-VARIABLES l, cnt, st
-vars == <<l, cnt, st>>
+VARIABLES l, cnt, st, broken
+vars == <<l, cnt, st, broken>>
 
 (* ------------------------------------------------------------------ helpers *)
 BSum(S, f(_)) == FoldSet(LAMBDA x, acc : BAdd(f(x), acc), Z, S)
@@ -524,9 +524,10 @@ JudgePages(e) ==
   [ S_pagination_complete_and_ordered |-> Must(e.paged = e.all /\ \A i \in DOMAIN e.page_sizes : e.page_sizes[i] <= e.limit) ]
 
 (* ------------------------------------------------------------------ the trace *)
-HasPost(e) == e.ev \notin {"q_rsim", "q_pages"}
+HasPost(e) == e.ev \notin {"q_rsim", "q_pages", "driver_abort"}
 Judge(s, e) ==
   CASE e.ev = "reset" -> NoGuards
+    [] e.ev = "driver_abort" -> [ M_driver_completed |-> Must(FALSE) ]
     [] e.ev = "q_rsim" -> JudgeRsim(s, e)
     [] e.ev = "q_pages" -> JudgePages(e)
     [] e.ev = "advance" -> JudgeAdvance(s, e, e.post)
@@ -558,15 +559,23 @@ ModelGuards(e, p) ==
          C04_model_balances_agree |-> G(e.ok, \A a \in DOMAIN m.bank : \A d \in {"d1", "d2", "d3"} : m.bank[a][d] = e.model.delta[a][d]) ]
   ELSE NoGuards
 
-Init == l = 1 /\ cnt = NoGuards /\ st = [none |-> TRUE]
+(* a pool record whose reserves, denoms and decimals no longer line up (C16: a pool's assets never change) cannot be judged
+   by the formulas above; it is flagged once and the rest of that scenario is skipped *)
+ShapeOK(p) == \A q \in DOMAIN Pools(p) : LET pl == Pools(p)[q] IN
+                 Len(pl.res) = Len(pl.adenoms) /\ Len(pl.res) = Len(pl.dec) /\ Len(pl.res) = Len(pl.denoms)
+Malformed(e) == e.ev # "reset" /\ HasPost(e) /\ ~ShapeOK(e.post)
+Init == l = 1 /\ cnt = NoGuards /\ st = [none |-> TRUE] /\ broken = FALSE
 Step == /\ l <= Len(Rec)
         /\ LET e == Rec[l]
-               gs == Judge(st, e) @@ (IF e.ev = "reset" \/ ~HasPost(e) THEN NoGuards ELSE Invariants(st, e, e.post) @@ ModelGuards(e, e.post))
+               gs == IF broken /\ e.ev # "reset" THEN NoGuards
+                     ELSE IF Malformed(e) THEN [ C16_pool_records_keep_their_shape |-> Must(FALSE) ]
+                     ELSE Judge(st, e) @@ (IF e.ev = "reset" \/ ~HasPost(e) THEN NoGuards ELSE Invariants(st, e, e.post) @@ ModelGuards(e, e.post))
            IN /\ Report(e.i, e.sc, gs)
               /\ cnt' = Count(cnt, gs)
               /\ st' = IF HasPost(e) THEN e.post ELSE st
+              /\ broken' = IF e.ev = "reset" THEN FALSE ELSE (broken \/ Malformed(e))
         /\ l' = l + 1
-Finish == l = Len(Rec) + 1 /\ PrintCounts(cnt) /\ l' = l + 1 /\ UNCHANGED <<cnt, st>>
+Finish == l = Len(Rec) + 1 /\ PrintCounts(cnt) /\ l' = l + 1 /\ UNCHANGED <<cnt, st, broken>>
 Spec == Init /\ [][Step \/ Finish]_vars
 Accepted == /\ PrintT(<<"CONSUMED", TLCGet("stats").diameter - 2, Len(Rec)>>)
             /\ TLCGet("stats").diameter - 2 = Len(Rec)
